@@ -1,6 +1,7 @@
 import PB.Model.Container
 import PB.Spec.ByteQueue
 import PBProofs.Lemmas.Varint
+import PBProofs.Lemmas.Base64
 /- Refinement lemmas: container (compartments + offset) ⟶ byte queue. -/
 namespace PB.Container
 open PB PB.Varint
@@ -148,7 +149,6 @@ theorem skip_spec (c : C) (h : Inv c) (n : Nat) : Inv (skip c n) ∧ abs (skip c
   obtain ⟨hi, ha⟩ := suffix_update c h _ _ h1 h2
   obtain ⟨hi', ha'⟩ := checkOffset_inv _ hi
   exact ⟨hi', by rw [ha', ha, h3]; rfl⟩
-
 end PB.Container
 
 namespace PB.Container
@@ -409,7 +409,7 @@ theorem compileData_spec (c : C) (h : Inv c) :
 
 theorem getNextN_spec (unpack : Bytes → Except PB.Varint.Err (Nat × Nat)) (k : Int) (c : C) (h : Inv c) :
     Inv (getNextN unpack k c).1 ∧ abs (getNextN unpack k c).1 = (PB.ByteQueue.getNextN unpack k (abs c)).1 ∧
-    (match (getNextN unpack k c).2 with | .ok v => Except.ok v | .error (.varint e) => .error e | .error .notEnough => .error .nodata)
+    (match (getNextN unpack k c).2 with | .ok v => Except.ok v | .error (.varint e) => .error e | .error _ => .error .nodata)
       = (PB.ByteQueue.getNextN unpack k (abs c)).2 := by
   unfold getNextN PB.ByteQueue.getNextN
   rw [peek_eq]
@@ -493,6 +493,26 @@ theorem getNextBlockAsContainer_spec (c : C) (h : Inv c) :
       rw [e]
       simp only [Int.toNat_natCast] at a ⊢
       exact ⟨zi, by simp [R, outCont, PB.ByteQueue.outBlock, za, sa, bytes_eq_abs, a]⟩
+
+theorem wtaLoop_spec : ∀ (bs : List Bytes) (budget : Nat),
+    wtaLoop budget bs = (bs.flatten.take budget, decide (bs.flatten.length ≤ budget)) := by
+  intro bs
+  induction bs with
+  | nil => intro budget; simp [wtaLoop]
+  | cons b rest ih =>
+    intro budget
+    simp only [wtaLoop, List.flatten_cons, List.length_append]
+    generalize hL : rest.flatten.length = L at *
+    by_cases h : budget < b.length
+    · have h2 : ¬ (b.length + L ≤ budget) := by omega
+      rw [if_pos h, List.take_append_of_le_length (Nat.le_of_lt h), decide_eq_false h2]
+    · have h3 : b.length ≤ budget := by omega
+      rw [if_neg h, ih, List.take_append, List.take_of_length_le h3]
+      have : decide (L ≤ budget - b.length) = decide (b.length + L ≤ budget) := by
+        by_cases hh : L ≤ budget - b.length
+        · rw [decide_eq_true hh, decide_eq_true (by omega)]
+        · rw [decide_eq_false hh, decide_eq_false (by omega)]
+      simp only [this]
 
 theorem step_refines (c : C) (h : Inv c) (op : Op) :
     Inv (step c op).1 ∧ R (step c op) = PB.ByteQueue.step (abs c) op := by
@@ -584,5 +604,83 @@ theorem step_refines (c : C) (h : Inv c) (op : Op) :
   | getNextN64 => exact getNextN_step unpack64 10 c h
   | holdsData => exact ⟨h, by simp [R, step, PB.ByteQueue.step, holdsData_eq]⟩
   | length => exact ⟨h, by simp [R, step, PB.ByteQueue.step, length_eq]⟩
+  | marshalJSON =>
+    obtain ⟨a, b, o⟩ := compileData_spec c h
+    exact ⟨a, by simp [R, step, PB.ByteQueue.step, marshalJSON, b, o]⟩
+  | unmarshalJSON d =>
+    cases d with
+    | none => exact ⟨h, by simp [R, step, PB.ByteQueue.step, unmarshalJSON, Err.str]⟩
+    | some raw => exact ⟨by simp [step, unmarshalJSON, Inv], by simp [R, step, PB.ByteQueue.step, unmarshalJSON, abs]⟩
+  | writeAllTo budget =>
+    exact ⟨h, by simp [R, step, PB.ByteQueue.step, writeAllTo, wtaLoop_spec, abs]⟩
+
+/-! ### Worlds of containers -/
+
+open PB.ByteQueue (WOp)
+
+/-- Every container of the world satisfies the representation invariant. -/
+def WInv (w : List C) : Prop := ∀ c ∈ w, Inv c
+
+theorem winv_set (w : List C) (i : Nat) (c : C) (h : WInv w) (hc : Inv c) : WInv (w.set i c) := by
+  intro x hx
+  rcases List.mem_or_eq_of_mem_set hx with h1 | h1
+  · exact h x h1
+  · subst h1; exact hc
+
+theorem appendContainerAsBlock_spec (c d : C) (h : Inv c) (hd : Inv d) :
+    Inv (appendContainerAsBlock c d) ∧
+    abs (appendContainerAsBlock c d) = abs c ++ pack64 (abs d).length ++ abs d := by
+  obtain ⟨a, b⟩ := append_spec c h (pack64 (length d))
+  obtain ⟨a', b'⟩ := appendContainer_spec _ d a hd
+  refine ⟨a', ?_⟩
+  show abs (appendContainer (append c (pack64 (length d))) d) = _
+  rw [b', b, length_eq]
+  rfl
+
+theorem wstep_refines (w : List C) (h : WInv w) (op : WOp) :
+    WInv (wstep w op).1 ∧ (wstep w op).1.map abs = (PB.ByteQueue.wstep (w.map abs) op).1 ∧
+    (wstep w op).2 = (PB.ByteQueue.wstep (w.map abs) op).2 := by
+  cases op with
+  | newc ds =>
+    refine ⟨?_, by simp [wstep, PB.ByteQueue.wstep, abs_new], rfl⟩
+    intro x hx
+    simp only [wstep, List.mem_append, List.mem_singleton] at hx
+    rcases hx with h1 | h1
+    · exact h x h1
+    · subst h1; exact inv_new ds
+  | on i op =>
+    simp only [wstep, PB.ByteQueue.wstep, List.getElem?_map]
+    cases hi : w[i]? with
+    | none => exact ⟨h, rfl, rfl⟩
+    | some c =>
+      have hc : Inv c := h c (List.mem_of_getElem? hi)
+      obtain ⟨a, b⟩ := step_refines c hc op
+      have b1 := congrArg Prod.fst b
+      have b2 := congrArg Prod.snd b
+      simp only [R] at b1 b2
+      simp only [Option.map_some]
+      exact ⟨winv_set w i _ h a, by rw [List.map_set, b1], b2⟩
+  | appendFrom i j =>
+    simp only [wstep, PB.ByteQueue.wstep, List.getElem?_map]
+    cases hi : w[i]? with
+    | none => exact ⟨h, rfl, rfl⟩
+    | some c =>
+      cases hj : w[j]? with
+      | none => exact ⟨h, rfl, rfl⟩
+      | some d =>
+        obtain ⟨a, b⟩ := appendContainer_spec c d (h c (List.mem_of_getElem? hi)) (h d (List.mem_of_getElem? hj))
+        simp only [Option.map_some]
+        exact ⟨winv_set w i _ h a, by rw [List.map_set, b], trivial⟩
+  | appendFromAsBlock i j =>
+    simp only [wstep, PB.ByteQueue.wstep, List.getElem?_map]
+    cases hi : w[i]? with
+    | none => exact ⟨h, rfl, rfl⟩
+    | some c =>
+      cases hj : w[j]? with
+      | none => exact ⟨h, rfl, rfl⟩
+      | some d =>
+        obtain ⟨a, b⟩ := appendContainerAsBlock_spec c d (h c (List.mem_of_getElem? hi)) (h d (List.mem_of_getElem? hj))
+        simp only [Option.map_some]
+        exact ⟨winv_set w i _ h a, by rw [List.map_set, b], trivial⟩
 
 end PB.Container
